@@ -121,14 +121,32 @@ func (g *DirectedTargetGraph) GetDependencies(target model.BuildNode) []model.Bu
 	return g.inEdges[target.GetLabel()]
 }
 
+// GetTargetDependencies returns the targets a node directly depends on.
+// Dependencies declared through an alias resolve to the target the alias points to.
 func (g *DirectedTargetGraph) GetTargetDependencies(node model.BuildNode) []*model.Target {
 	var targets []*model.Target
 	for _, dependency := range g.GetDependencies(node) {
-		if target, ok := dependency.(*model.Target); ok {
+		if target := g.resolveTarget(dependency); target != nil {
 			targets = append(targets, target)
 		}
 	}
 	return targets
+}
+
+// resolveTarget follows alias nodes to the target they (transitively) point to.
+func (g *DirectedTargetGraph) resolveTarget(node model.BuildNode) *model.Target {
+	// bounded by the number of nodes: alias cycles are rejected when the graph is built
+	for i := 0; i <= len(g.nodes); i++ {
+		if target, ok := node.(*model.Target); ok {
+			return target
+		}
+		dependencies := g.GetDependencies(node)
+		if len(dependencies) != 1 {
+			return nil
+		}
+		node = dependencies[0]
+	}
+	return nil
 }
 
 func (g *DirectedTargetGraph) GetDependants(target model.BuildNode) []model.BuildNode {
